@@ -48,6 +48,12 @@ def objects(ctx):
         kk = K.new_key('ed25519', name='N' * n, email='n@x.org')
         out.append(('pubkey', 'key', kk.pubkey, 'public key uidlen=%d' % n))
         out.append(('privkey', 'key', kk, 'private key uidlen=%d' % n))
+    # subkey objects armored on their own (a secret subkey is secret key material: PRIVATE KEY BLOCK); PGPy cannot load a block that
+    # starts with a subkey, so these are judged on the written text only
+    for sk_ in k.subkeys.values():
+        out.append(('privkey', 'key', sk_, 'lone private subkey'))
+    for sk_ in k.pubkey.subkeys.values():
+        out.append(('pubkey', 'key', sk_, 'lone public subkey'))
     rk = K.new_key('rsa2048', name='RSA Armor', email='r@x.org')
     out.append(('pubkey', 'key', rk.pubkey, 'rsa public key'))
     out.append(('privkey', 'key', rk, 'rsa private key'))
@@ -144,7 +150,7 @@ def write_events(ctx, objs):
 def read_events(ctx, wev):
     ev = []
     # choose a spread of written blocks
-    picks = [e for e in wev if not e['label'].startswith('literal')] + [e for e in wev if e['label'].startswith('literal')][:: (9 if ctx.quick else 3)]
+    picks = [e for e in wev if not e['label'].startswith('literal') and not e['label'].startswith('lone ')] + [e for e in wev if e['label'].startswith('literal')][:: (9 if ctx.quick else 3)]
     for e in picks:
         text = ''.join(chr(c) for c in e['text'])
         expect = e['expect']
